@@ -248,7 +248,8 @@ def ev(node, env):
         return lam
     if isinstance(node, ast.Call) and isinstance(node.func, ast.Lambda):
         return ev(node.func, env)(*[ev(a, env) for a in node.args])
-    if isinstance(node, ast.Call) and isinstance(node.func, ast.Attribute) and node.func.attr in ('get', 'startswith', 'endswith', 'keys', 'values', 'items', 'isdigit', 'copy', 'split', 'rsplit', 'replace', 'strip', 'lower', 'upper', 'casefold', 'join', 'count', 'isalpha', 'isalnum') \
+    if isinstance(node, ast.Call) and isinstance(node.func, ast.Attribute) and node.func.attr in ('get', 'startswith', 'endswith', 'keys', 'values', 'items', 'isdigit', 'copy', 'split', 'rsplit', 'replace', 'strip', 'lower', 'upper', 'casefold', 'join', 'count', 'isalpha', 'isalnum', 'index', 'find', 'rfind', 'lstrip', 'rstrip', 'partition', 'rpartition', 'splitlines', 'title', 'zfill', 'ljust', 'rjust', 'center',
+                                                                                                      'isdecimal', 'isnumeric', 'isspace', 'isupper', 'islower', 'removeprefix', 'removesuffix') \
             and u(node.func) not in env and u(node.func) not in BUILTINS:
         recv = ev(node.func.value, env)
         if isinstance(recv, (dict, str)):
